@@ -65,10 +65,7 @@ Fixpoint roman_places (tbl : list (N * str * N * str)) (v : N) (acc : str) : opt
       if 0 <? v2 then roman_places rest v2 acc2 else Some acc2
   end.
 
-Definition to_roman (val : N) : option str :=
-  if val =? 0 then Some [48]
-  else if roman_limit <? val then Some error_string
-  else roman_places roman_table val [].
+(* to_roman itself follows the decimal conversion below (values above the limit may use it) *)
 
 (* independent decoder: subtractive notation, right to left *)
 Definition roman_letter_value (c : N) : N :=
@@ -95,6 +92,14 @@ Definition dec_fuel (n : N) : nat := S (N.to_nat (N.size n)).
 Definition decimal_rev (n : N) : list N := digits_rev (dec_fuel n) n.
 Definition decimal (n : N) : str := rev (decimal_rev n).
 
+(* toRoman: 0 prints "0"; above the limit the error string or, in the repaired code, the decimal
+   representation (GenNum7.roman_overflow_decimal says which branch /repo has) *)
+Definition to_roman (val : N) : option str :=
+  if val =? 0 then Some [48]
+  else if roman_limit <? val then Some (if roman_overflow_decimal then decimal val else error_string)
+  else roman_places roman_table val [].
+
+
 (* applyGrouping walks the value from its last character; i counts characters already copied *)
 Fixpoint group_rev (gs : N) (sep : str) (i : N) (l : list N) : list N :=
   match l with
@@ -118,6 +123,11 @@ Definition format_decimal (grouping : option (str * N)) (width : N) (n : N) : st
 Definition is_digit (c : N) : bool := (48 <=? c) && (c <=? 57).
 Definition dec_value (s : str) : N := fold_left (fun a c => a * 10 + (c - 48)) s 0.
 Definition decimal_decode (sepc : N) (s : str) : N := dec_value (filter (fun c => negb (c =? sepc)) s).
+
+(* independent decoder of what a roman token may print: a run of digits is a decimal numeral
+   (0, and the values without a roman numeral), anything else is read as roman letters *)
+Definition roman_text_decode (s : str) : Z :=
+  if forallb is_digit s then Z.of_N (dec_value s) else roman_decode s.
 
 (* ---------------------------------------------------------------------------------------------
    getFormattedNumber: the switch on the last character of the format token *)
